@@ -45,11 +45,21 @@ def be_width(p):
     return None
 
 
+def def_len(p):
+    """length that a spec-function term has by definition: be(w, v) -> w, sbe(n, v) -> n; else None"""
+    w = be_width(p)
+    if w is not None:
+        return z3.IntVal(w)
+    if z3.is_app(p) and p.decl().kind() == z3.Z3_OP_UNINTERPRETED and p.decl().name() == 'sbe' and p.num_args() == 2:
+        return p.arg(0)
+    return None
+
+
 def plen(p):
     if is_unit(p):
         return z3.IntVal(1)
-    w = be_width(p)
-    return z3.IntVal(w) if w is not None else z3.Length(p)
+    d = def_len(p)
+    return d if d is not None else z3.Length(p)
 
 
 def norm_len(t):
@@ -62,9 +72,9 @@ def norm_len(t):
             continue
         seen.add(e.get_id())
         if e.decl().kind() == z3.Z3_OP_SEQ_LENGTH:
-            w = be_width(e.arg(0))
+            w = def_len(e.arg(0))
             if w is not None:
-                subs.append((e, z3.IntVal(w)))
+                subs.append((e, w))
                 continue
         stack.extend(e.children())
     return z3.simplify(z3.substitute(t, *subs)) if subs else t
